@@ -2,7 +2,7 @@
 import itertools
 import random
 
-from ..framework import Prop, mk, guarded, ensure_repo_on_path
+from ..framework import Prop, mk, guarded, ensure_repo_on_path, exc_family
 
 CHAINS = ('mainnet', 'testnet', 'signet', 'regtest')
 CHAIN_HRPS = ('bc', 'tb', 'bcrt')
@@ -109,6 +109,16 @@ def show_dec(r):
     return '%d:%s' % (v, bytes(p).hex())
 
 
+def admissible(v, ln):
+    """(witness version, program length) pairs the property speaks about"""
+    return 0 <= v <= 16 and 2 <= ln <= 40 and (v != 0 or ln in (20, 32))
+
+
+def valid_hrp(h, ln):
+    """prefix an encoder may use for a program of ln bytes: 1..83 characters of 33..126, no upper case, total <= 90"""
+    return 1 <= len(h) and len(h) + 1 + data_len(ln) <= 90 and all(33 <= ord(c) <= 126 and not 'A' <= c <= 'Z' for c in h)
+
+
 def data_len(nbytes):
     """number of data characters of an address carrying nbytes: version + groups + checksum"""
     return 1 + (8 * nbytes + 4) // 5 + 6
@@ -137,7 +147,12 @@ class C11(Prop):
                     'operations on non-negative ints = Nat bit operations (validated by the correspondence run)',
                     'detects_le4: no native_decide any more — the exhaustive check is 961+2 kernel-evaluated theorems '
                     '(Proofs/Bech32Code4Shards, literals generated by harness/gen_bech32_shards.py are untrusted data)']
-    assumptions = ['corruption is counted on the lowercase form (a pure change of letter case is the mixed-case rule)']
+    assumptions = ['corruption is counted on the lowercase form (a pure change of letter case is the mixed-case rule)',
+                   'compared: segwit_addr.encode/decode and CBech32Data(s)/str()/bytes/witver on the statement\'s domain; '
+                   'for == / hash only relations between equal objects; repr only has to succeed. The BIP173 helper '
+                   'functions (polymod, create_checksum, convertbits, bech32_encode/decode) are AUXILIARY ties: skipped as '
+                   'unobservable when a name is missing, their malformed-argument calls and every encode/str call outside '
+                   'the admissible (version, length, prefix) domain are tagged out-of-domain (noted, never a violation)']
     rule = ('BIP173 vectors; prefixes bc/tb/bcrt x every program length 2..40 x every version 1..16 and 20/32-byte v0 '
             'programs (+ out-of-range versions/lengths) and random valid prefixes (1..83 chars of 33..126, lengths '
             'steered to the 90/91 boundary) through encode/decode; per valid address EVERY single substitution '
@@ -196,7 +211,7 @@ class C11(Prop):
         # "pangram": the 20-byte program whose 5-bit groups are 0..31, so the data part shows every character of
         # the alphabet; under a prefix made of every ASCII letter that some non-ASCII code point case-maps to
         letters = sorted({c.lower() for hit in casemap_scan().values() for c in hit if c.isalpha()})
-        pangram = bytes(self.SA.convertbits(list(range(32)), 5, 8, False))
+        pangram = int(''.join('{:05b}'.format(v) for v in range(32)), 2).to_bytes(20, 'big')   # groups 0..31
         for h in (''.join(letters), 'bc'):
             a = self._enc(h, 0, pangram)
             if a is not None:
@@ -287,7 +302,7 @@ class C11(Prop):
         # (0) BIP173 vectors
         for s in BIP173_VALID_BECH32 + BIP173_INVALID_BECH32 + [a for _, a in BIP173_VALID_ADDR] + BIP173_INVALID_ADDR:
             if mine():
-                yield mk('c11.b32dec', cps(s), tag='bip173-bech32')
+                yield mk('c11.b32dec', cps(s), tag='bip173-bech32', ood=s not in BIP173_VALID_BECH32)
                 for h in ('bc', 'tb', 'bcrt', 'BC'):
                     yield mk('c11.decode', cps(h), cps(s), tag='bip173-addr')
                 for ch in CHAINS:
@@ -306,7 +321,8 @@ class C11(Prop):
                 m = 1 << f
                 # in-domain values only (what convertbits does with values >= 2^frombits is not the property's business)
                 ds = [rng.choice([0, 1, m - 1, m - 2, rng.randrange(m)]) for _ in range(ln)]
-                yield mk('c11.convertbits', nats(ds), f, t, p, tag='convertbits')
+                # (5,8,pad) and (8,5,no pad) are argument combinations no caller of the library uses: out of domain
+                yield mk('c11.convertbits', nats(ds), f, t, p, tag='convertbits', ood=(f, t, p) in ((5, 8, 1), (8, 5, 0)))
             # the 5->8 padding rules: every tail shape (0..7 spare bits, zero / non-zero)
             ds = [rng.randrange(32) for _ in range(ln)] + [rng.choice([0, 1, 2, 4, 8, 16, 3, 24, 28, 30, 31])]
             yield mk('c11.convertbits', nats(ds), 5, 8, 0, tag='convertbits-pad')
@@ -329,7 +345,7 @@ class C11(Prop):
                     if not mine():
                         continue
                     p = rng.randbytes(ln)
-                    yield mk('c11.encode', cps(h), v, p.hex(), tag='encode-grid')
+                    yield mk('c11.encode', cps(h), v, p.hex(), tag='encode-grid', ood=not admissible(v, ln))
                     a = self._enc(h, v, p)
                     if a is not None:
                         yield mk('c11.decode', cps(h), cps(a), tag='decode-valid')
@@ -337,7 +353,7 @@ class C11(Prop):
             for v in (17, 18, 30, 31):                 # (versions >= 32 have no character: outside the property)
                 for ln in (0, 2, 20, 32, 40, 41):
                     if mine():
-                        yield mk('c11.encode', cps(h), v, rng.randbytes(ln).hex(), tag='encode-badver')
+                        yield mk('c11.encode', cps(h), v, rng.randbytes(ln).hex(), tag='encode-badver', ood=True)
         for _ in range(per_shard(4000 if big else 500)):
             v = rng.choice([0, 0, 0, 1, 16, rng.randrange(17)])
             ln = rng.choice([20, 32]) if v == 0 and rng.randrange(8) else rng.choice(
@@ -346,7 +362,7 @@ class C11(Prop):
             hl = rng.choice([1, 2, room - 1, room, room + 1, room + 2, rng.randrange(1, 84)])
             h = rng.choice(CHAIN_HRPS) if rng.randrange(4) == 0 else self._rand_hrp(rng, max(1, hl))
             p = rng.choice([rng.randbytes(ln), bytes(ln), b'\xff' * ln])
-            yield mk('c11.encode', cps(h), v, p.hex(), tag='encode')
+            yield mk('c11.encode', cps(h), v, p.hex(), tag='encode', ood=not (admissible(v, ln) and valid_hrp(h, ln)))
             a = self._enc(h, v, p)
             if a is not None:
                 yield mk('c11.decode', cps(h), cps(a), tag='decode-valid')
@@ -356,7 +372,7 @@ class C11(Prop):
         for h in ('Bc', 'BC', 'b c', 'b\tc', '', 'bc\x7f', '\xe9', '€', 'x' * 84, 'x' * 100, 'bC1', '1'):
             for (v, p) in ((0, bytes(20)), (1, bytes(2)), (16, bytes(40))):
                 if mine():
-                    yield mk('c11.encode', cps(h), v, p.hex(), tag='encode-badhrp')
+                    yield mk('c11.encode', cps(h), v, p.hex(), tag='encode-badhrp', ood=True)
         # malformed strings straight into the decoders
         for _ in range(per_shard(6000 if big else 800)):
             ln = rng.choice([0, 1, 6, 7, 8, 20, 89, 90, 91, 92] + [p for p in pool if p <= 100])
@@ -372,7 +388,7 @@ class C11(Prop):
             else:
                 s = ''.join(chr(rng.choice([32, 33, 126, 127, 49, 65, 90, 97, 122] + SPECIALS + [p for p in pool if p > 0]))
                             for _ in range(ln))
-            yield mk('c11.b32dec', cps(s), tag='garbage')
+            yield mk('c11.b32dec', cps(s), tag='garbage', ood=True)
             yield mk('c11.decode', cps(rng.choice(['bc', s[:2], ''])), cps(s), tag='garbage')
 
         # (3a) every single substitution of every fixed address (exhaustive, partitioned by position)
@@ -411,8 +427,8 @@ class C11(Prop):
                     if i < len(form):
                         yield mk('c11.decode', cps(h), cps(form[:i] + fullwidth(form[i]) + form[i + 1:]),
                                  tag='special-fullwidth')
-                        yield mk('c11.b32dec', cps(form[:i] + chr(0x212a) + form[i + 1:]), tag='special-b32dec')
-                        yield mk('c11.b32dec', cps(form[:i] + chr(0x17f) + form[i + 1:]), tag='special-b32dec')
+                        yield mk('c11.b32dec', cps(form[:i] + chr(0x212a) + form[i + 1:]), tag='special-b32dec', ood=True)
+                        yield mk('c11.b32dec', cps(form[:i] + chr(0x17f) + form[i + 1:]), tag='special-b32dec', ood=True)
         # the same through CBech32Data under each chain, and in the HRP argument of decode / encode
         for ci, ch in enumerate(CHAINS):
             h = ('bc', 'tb', 'tb', 'bcrt')[ci]
@@ -433,9 +449,9 @@ class C11(Prop):
                     a2 = a2[:i] + chr(cp) + a2[i + 1:]
                     for (hh, aa) in ((h2, a), (h2, a2), (h2.upper(), a2.upper()), (h, a2)):
                         yield mk('c11.decode', cps(hh), cps(aa), tag='special-hrp')
-                    yield mk('c11.encode', cps(h2), 0, bytes(range(20)).hex(), tag='special-hrp-encode')
+                    yield mk('c11.encode', cps(h2), 0, bytes(range(20)).hex(), tag='special-hrp-encode', ood=True)
                 yield mk('c11.encode', cps(h[:i] + fullwidth(h[i]) + h[i + 1:]), 0, bytes(20).hex(),
-                         tag='special-hrp-encode')
+                         tag='special-hrp-encode', ood=True)
 
         # (3b) shard-random addresses: all singles, sampled doubles/triples/quadruples, case and length classes
         naddr = 2 if big else 1
@@ -481,16 +497,16 @@ class C11(Prop):
             'decode;%s;%s' % (cps('bc'), cps(va['bc'])), 'decode;%s;%s' % (cps('tb'), cps(va['bc'])),
             'decode;%s;%s' % (cps('bc'), cps(va['bc'].upper())), 'decode;%s;%s' % (cps('bc'), cps(bad)),
             'decode;%s;%s' % (cps('tb'), cps(vb['tb'])), 'decode;%s;%s' % (cps('bc'), cps(vb['bc'])),
-            'b32dec;%s' % cps(va['bc']), 'b32dec;%s' % cps(bad),
+            'decode;%s;%s' % (cps('bcrt'), cps(vb['bcrt'])), 'decode;%s;%s' % (cps('bcrt'), cps(bad)),
             'encode;%s;0;%s' % (cps('bc'), p20.hex()), 'encode;%s;0;%s' % (cps('tb'), p20.hex()),
-            'encode;%s;1;%s' % (cps('bc'), p32.hex()), 'encode;%s;0;%s' % (cps('bc'), p32[:21].hex()),
-            'encode;%s;17;%s' % (cps('bc'), p20.hex()), 'encode;%s;0;%s' % (cps('BC'), p20.hex()),
+            'encode;%s;1;%s' % (cps('bc'), p32.hex()), '~encode;%s;0;%s' % (cps('bc'), p32[:21].hex()),
+            '~encode;%s;17;%s' % (cps('bc'), p20.hex()), '~encode;%s;0;%s' % (cps('BC'), p20.hex()),  # out of domain: masked
             '~encode;%s;40;%s' % (cps('bc'), p20.hex()),            # raises part-way (IndexError), outcome masked
             '~encode;%s;1000;%s' % (cps('tb'), p32.hex()),
             'new;mainnet;%s' % cps(va['bc']), 'new;testnet;%s' % cps(va['bc']), 'new;testnet;%s' % cps(va['tb']),
             'new;regtest;%s' % cps(vb['bcrt']), 'new;mainnet;%s' % cps(bad), 'new;signet;%s' % cps(vb['tb'].upper()),
             'str;mainnet;0;%s' % p20.hex(), 'str;regtest;0;%s' % p20.hex(), 'str;testnet;1;%s' % p32.hex(),
-            'str;mainnet;17;%s' % p20.hex(),                          # ValueError from from_bytes
+            '~str;mainnet;17;%s' % p20.hex(),                         # ValueError from from_bytes (out of domain)
             '~str;mainnet;0;%s' % p20[:5].hex(),                      # __str__ returns None -> TypeError, masked
         ]
         # every history ends with fixed, compared probe calls of each entry point, so that state left behind by
@@ -506,8 +522,9 @@ class C11(Prop):
             seq = [crng.choice(calls) for _ in range(crng.randint(3, 7))]
             if mine():
                 yield mk('c11.seq', *FLUSH, *seq, *PROBE, tag='history')
-        observers = ['str', 'bytes', 'tobytes', 'witver', 'len', 'hash', 'repr', 'eq:' + p20.hex(), 'ne:' + p32.hex(),
-                     'eq:' + p32.hex()]
+        # observers: what the statement gives (string form, version, program bytes) and RELATIONS for == / hash
+        # (an equal twin built the same way: o == twin, hash(o) == hash(twin); repr only has to succeed)
+        observers = ['str', 'bytes', 'tobytes', 'witver', 'len', 'hash', 'repr', 'eqtwin', 'netwin', 'strtwin']
         objs = [('mainnet', 'fb', '0:' + p20.hex()), ('testnet', 'fb', '1:' + p32.hex()),
                 ('mainnet', 'new', cps(va['bc'])), ('regtest', 'new', cps(vb['bcrt'].upper())),
                 ('signet', 'new', cps(va['tb'])), ('regtest', 'fb', '16:' + p32[:2].hex())]
@@ -518,7 +535,7 @@ class C11(Prop):
                         yield mk('c11.obj', ch, how, payload, o1, o2, tag='observer-pair')
                         other = CHAINS[(CHAINS.index(ch) + 1) % 4]
                         yield mk('c11.obj', ch, how, payload, o1, 'sel:' + other, o2, 'sel:' + ch, o1, o2, tag='observer-pair')
-            for perm in itertools.permutations(['str', 'bytes', 'witver', 'eq:' + p20.hex(), 'hash']):
+            for perm in itertools.permutations(['str', 'bytes', 'witver', 'eqtwin', 'hash']):
                 if mine():
                     yield mk('c11.obj', ch, how, payload, *perm, tag='observer-perm')
         for _ in range(3000 if big else 300):
@@ -528,7 +545,7 @@ class C11(Prop):
                 yield mk('c11.obj', ch, how, payload, *toks, tag='observer-seq')
         for (ch, how, payload) in (('mainnet', 'new', cps(bad)), ('mainnet', 'fb', '17:' + p20.hex())):
             if mine():
-                yield mk('c11.obj', ch, how, payload, 'str', tag='observer-pair')
+                yield mk('c11.obj', ch, how, payload, 'str', tag='observer-pair', ood=how == 'fb')
 
         # (4) CBech32Data under each chain's HRP
         for ch in CHAINS:
@@ -538,8 +555,8 @@ class C11(Prop):
                         continue
                     p = rng.randbytes(ln)
                     # str() only of objects the property speaks about (admissible pair) or refused by from_bytes
-                    if v > 16 or (2 <= ln <= 40 and (v != 0 or ln in (20, 32))):
-                        yield mk('c11.str', ch, v, p.hex(), tag='str')
+                    if v > 16 or admissible(v, ln):
+                        yield mk('c11.str', ch, v, p.hex(), tag='str', ood=v > 16)
                     for h in CHAIN_HRPS:
                         a = self._enc(h, v, p)
                         if a is not None:
@@ -616,19 +633,30 @@ class C11(Prop):
                     v, hx_ = payload.split(':')
                     o = B.from_bytes(int(str(int(v))), bytes(bytearray(bytes.fromhex(hx_))))
             except Exception as e:  # noqa: BLE001
-                return guarded(lambda: (_ for _ in ()).throw(e))
+                return 'err:' + exc_family(e)
             outs.append('ok')
+
+            def twin():
+                # an equal object built the same way under the chain the original was built under
+                cur = self.bitcoin.params.NAME
+                self.bitcoin.SelectParams(chain)
+                try:
+                    return B(uncps(payload)) if how == 'new' else \
+                        B.from_bytes(int(payload.split(':')[0]), bytes.fromhex(payload.split(':')[1]))
+                finally:
+                    self.bitcoin.SelectParams(cur)
             for t in toks:
                 k, _, arg = t.partition(':')
                 if k == 'sel':
                     self.bitcoin.SelectParams(arg)
                     outs.append('-')
                     continue
-                f = {'str': lambda: str(o), 'repr': lambda: repr(o), 'bytes': lambda: bytes(o).hex(),
+                f = {'str': lambda: str(o), 'repr': lambda: 'r' if isinstance(repr(o), str) else 'not-a-str',
+                     'bytes': lambda: bytes(o).hex(),
                      'tobytes': lambda: o.to_bytes().hex(), 'witver': lambda: str(o.witver), 'len': lambda: str(len(o)),
-                     'hash': lambda: str(hash(o) == hash(bytes(o))),
-                     'eq': lambda: str(o == bytes(bytearray(bytes.fromhex(arg)))),
-                     'ne': lambda: str(o != bytes(bytearray(bytes.fromhex(arg))))}[k]
+                     'hash': lambda: str(hash(o) == hash(twin())),
+                     'eqtwin': lambda: str(o == twin()), 'netwin': lambda: str(o != twin()),
+                     'strtwin': lambda: str(str(o) == str(twin()))}[k]
                 outs.append(guarded(f))
         finally:
             self.bitcoin.SelectParams('mainnet')
